@@ -912,6 +912,18 @@ USER_KINDS = {'addPrivileged': 1, 'addUser': 1, 'userStatus': 1, 'userStats': 1,
 NO_TARGET = ('hold', 'toggleInvites', 'admin', 'kicked', 'checkPrivileges')
 
 
+def _corpus() -> list:
+    """minimised past violations (corpus/C19/*.json), always run first"""
+    import json
+    out = []
+    d = common.CORPUS / 'C19'
+    if d.is_dir():
+        for f in sorted(d.glob('*.json')):
+            c = json.loads(f.read_text())['case']
+            out.append(dict(c, focus='witness'))
+    return out
+
+
 def _nontrivial(case: dict) -> bool:
     """two different notification kinds addressed the same room or the same user"""
     by_room, by_user = {}, {}
@@ -961,8 +973,8 @@ class C19(Property):
     def correspondence(self, seed, tier, model_ok, widen=1):
         res = KResult()
         rng = random.Random(f'C19-{seed}')
-        n = (5000 if tier == "quick" else 60000) * widen
-        cases = list(FIXED_CASES) + [_gen_case(rng) for _ in range(n)]
+        n = (12000 if tier == "quick" else 150000) * widen
+        cases = list(FIXED_CASES) + _corpus() + [_gen_case(rng) for _ in range(n)]
         # handler set of the real managers, read now
         room_h, user_h = _handler_classes()
         known = {_kind_class(k) for k in KINDS}
@@ -986,42 +998,46 @@ class C19(Property):
         if missed:
             res.disagreements.append(Disagreement(None, missed, None, 'generated cases do not reach every handler'))
 
-        impl = common.parallel_map(_eval_case, cases, chunksize=32)
-        model = None
-        if model_ok:
-            lines, spans = [], []
-            for c in cases:
-                ls = _model_lines(c)
-                spans.append((len(lines), len(ls)))
-                lines += ls
-            out = common.run_driver(self.driver_file, lines)
-            model = [out[a:a + k] for a, k in spans]
-        else:
+        if not model_ok:
             res.model_available = False
-        for i, c in enumerate(cases):
-            res.evaluations += 1
-            res.count('focus:' + c['focus'])
-            res.count('ops', len(c['ops']) - 1)
-            obs = impl[i]
-            if obs and str(obs[-1]['err']).startswith('HARNESS'):
-                res.violations.append(Violation('C19-impl-error', 'the managers could not be driven on this case', c,
-                                                observed=obs[-1]['err']))
-                continue
-            if any(o['err'] != 'ok' for o in obs):
-                res.count('cases with a handler exception')
-            if _nontrivial(c):
-                res.nontrivial_keys.add(common.sha([c['blocked_room'], c['blocked_priv'], c['ops']]))
-            if model is not None:
-                res.traces_validated += 1
-                il = _impl_lines(c, obs)
-                if model[i] != il:
-                    k = next((j for j, (a, b) in enumerate(zip(model[i], il)) if a != b), min(len(model[i]), len(il)))
-                    res.disagreements.append(Disagreement(
-                        c, il[k] if k < len(il) else None, model[i][k] if k < len(model[i]) else None,
-                        f'line #{k} {c["ops"][k - 1] if 0 < k <= len(c["ops"]) else ""}'))
-            res.violations += _monitor(c, obs)
-            if len(res.samples) < 3 and 3 <= len(c['ops']) <= 6 and c['focus'] != 'witness':
-                res.samples.append({'case': c, 'impl': _impl_lines(c, obs)[1:]})
+        BATCH = 10000                   # bounded memory: run, compare and drop one batch at a time
+        for b0 in range(0, len(cases), BATCH):
+            batch = cases[b0:b0 + BATCH]
+            impl = common.parallel_map(_eval_case, batch, chunksize=32)
+            model = None
+            if model_ok:
+                lines, spans = [], []
+                for c in batch:
+                    ls = _model_lines(c)
+                    spans.append((len(lines), len(ls)))
+                    lines += ls
+                out = common.run_driver(self.driver_file, lines)
+                model = [out[a:a + k] for a, k in spans]
+            for i, c in enumerate(batch):
+                res.evaluations += 1
+                res.count('focus:' + c['focus'])
+                res.count('ops', len(c['ops']) - 1)
+                obs = impl[i]
+                if obs and str(obs[-1]['err']).startswith('HARNESS'):
+                    res.violations.append(Violation('C19-impl-error', 'the managers could not be driven on this case', c,
+                                                    observed=obs[-1]['err']))
+                    continue
+                if any(o['err'] != 'ok' for o in obs):
+                    res.count('cases with a handler exception')
+                if _nontrivial(c):
+                    res.nontrivial_keys.add(common.sha([c['blocked_room'], c['blocked_priv'], c['ops']]))
+                if model is not None:
+                    res.traces_validated += 1
+                    il = _impl_lines(c, obs)
+                    if model[i] != il and len(res.disagreements) < 2000:
+                        k = next((j for j, (a, b) in enumerate(zip(model[i], il)) if a != b), min(len(model[i]), len(il)))
+                        res.disagreements.append(Disagreement(
+                            c, il[k] if k < len(il) else None, model[i][k] if k < len(model[i]) else None,
+                            f'line #{k} {c["ops"][k - 1] if 0 < k <= len(c["ops"]) else ""}'))
+                if len(res.violations) < 2000:
+                    res.violations += _monitor(c, obs)
+                if len(res.samples) < 3 and 3 <= len(c['ops']) <= 6 and c['focus'] != 'witness':
+                    res.samples.append({'case': c, 'impl': _impl_lines(c, obs)[1:]})
         return res
 
     def replay(self, case):
